@@ -215,8 +215,15 @@ func ValidateParameter(ctx context.Context, input *RequestValidationInput, param
 				// the parsed query kept with the input has to show the same parameters
 				input.QueryParams = q
 			case openapi3.ParameterInHeader:
+				if req.Header == nil {
+					// a request built by hand (&http.Request{...}) has no header map yet
+					req.Header = make(http.Header)
+				}
 				req.Header.Add(parameter.Name, formatDefault(value))
 			case openapi3.ParameterInCookie:
+				if req.Header == nil {
+					req.Header = make(http.Header)
+				}
 				req.AddCookie(&http.Cookie{
 					Name:  parameter.Name,
 					Value: formatDefault(value),
